@@ -365,6 +365,14 @@ OPS = [
                                                                   synapgrad.Tensor(np.ones(2, dtype=np.float32)), False)),
     ("Dropout", [(4,)], lambda t: nn.Dropout(0.5)(t[0])),
     ("Flatten", [(2, 2)], lambda t: nn.Flatten()(t[0])),
+    # layers that own parameters: the parameters require grad, so the result does whenever gradient mode is on - whatever the input's flag
+    ("Linear layer", [(2, 3)], lambda t: nn.Linear(3, 2)(t[0]), True),
+    ("Linear layer no bias", [(2, 3)], lambda t: nn.Linear(3, 2, bias=False)(t[0]), True),
+    ("Conv1d layer", [(1, 2, 3)], lambda t: nn.Conv1d(2, 2, 2)(t[0]), True),
+    ("Conv2d layer", [(1, 1, 3, 3)], lambda t: nn.Conv2d(1, 2, 2)(t[0]), True),
+    ("BatchNorm1d layer", [(3, 2)], lambda t: nn.BatchNorm1d(2)(t[0]), True),
+    ("BatchNorm2d layer", [(2, 2, 1, 2)], lambda t: nn.BatchNorm2d(2)(t[0]), True),
+    ("Neuron layer", [(2, 3)], lambda t: nn.Neuron(3)(t[0]), True),
 ]
 
 
@@ -375,7 +383,8 @@ def %(name)s(opi: int, f0: bool, f1: bool, f2: bool, grad_on: bool) -> bool:
     """
     _PATHS[0] += 1
     _reset_modes()
-    name, shapes, call = OPS[opi]
+    name, shapes, call = OPS[opi][:3]
+    owns_params = len(OPS[opi]) > 3
     flags = [f0, f1, f2][:len(shapes)]
     ts = [synapgrad.Tensor(_a(*sh), requires_grad=bool(fl)) for sh, fl in zip(shapes, flags)]
     ctx = None
@@ -392,7 +401,7 @@ def %(name)s(opi: int, f0: bool, f1: bool, f2: bool, grad_on: bool) -> bool:
         if ctx is not None:
             ctx.__exit__(None, None, None)
             _LEFT.pop()
-    want = bool(grad_on) and any(bool(fl) for fl in flags)
+    want = bool(grad_on) and (owns_params or any(bool(fl) for fl in flags))
     ok = True
     outs = res if isinstance(res, list) else [res]
     for o in outs:
